@@ -201,13 +201,39 @@ fn oracle(
 
 struct Part {
     name: &'static str,
-    configs: Vec<Config>,
+    /// Slot options whose product (plus empty-list variants) is the part's configuration set.
+    options: Vec<Vec<SlotCfg>>,
     max_dev: usize,
+    /// Share of the check's time budget (parts that finish early leave their time to later ones).
+    weight: f64,
 }
 
-fn run_part(rep: &mut Report, chains: &Chains, part: &Part, wall: Instant) {
+/// Visit order: a fixed stride permutation, so that a part cut short by the deadline has still
+/// visited configurations from all over the product (reported as not exhaustive in that case).
+pub fn spread<T>(items: Vec<T>) -> Vec<(usize, T)> {
+    let n = items.len();
+    let mut stride = (n as f64 * 0.618_033_988_75) as usize | 1;
+    fn gcd(a: usize, b: usize) -> usize {
+        if b == 0 { a } else { gcd(b, a % b) }
+    }
+    while n > 1 && gcd(stride, n) != 1 {
+        stride += 2;
+    }
+    let mut slots: Vec<Option<T>> = items.into_iter().map(Some).collect();
+    let mut out = Vec::with_capacity(n);
+    let mut j = 0usize;
+    for _ in 0..n {
+        out.push((j, slots[j].take().expect("stride permutation visits every index once")));
+        j = (j + stride) % n.max(1);
+    }
+    out
+}
+
+fn run_part(rep: &mut Report, chains: &Chains, part: &Part, wall: Instant) -> usize {
     let threads = rep.args.threads;
-    let acc = par_for(&part.configs, threads, wall, |idx, cfg, acc: &mut Acc| {
+    let configs = spread(product(&part.options));
+    let acc = par_for(&configs, threads, wall, |_, (idx, cfg), acc: &mut Acc| {
+        let idx = *idx;
         let mut flowed = false;
         let mut sample: Option<explorer::Value> = None;
         let verified = std::cell::RefCell::new(BTreeSet::new());
@@ -224,19 +250,25 @@ fn run_part(rep: &mut Report, chains: &Chains, part: &Part, wall: Instant) {
                     2_000,
                 );
                 let (v, n) = oracle(chains, cfg, &reps, &run, &verified);
-                let recv: Vec<Vec<String>> = (0..2)
-                    .map(|i| {
-                        run.received(i)
-                            .iter()
-                            .map(|o| format!("author{}/log{}/seq{}", chains.author_index(&o.header.verifying_key), o.header.extensions.log, o.header.seq_num))
-                            .collect()
-                    })
-                    .collect();
+                let recv: Option<Vec<Vec<String>>> = if n[0] > 0 && n[1] > 0 {
+                    Some(
+                        (0..2)
+                            .map(|i| {
+                                run.received(i)
+                                    .iter()
+                                    .map(|o| format!("author{}/log{}/seq{}", chains.author_index(&o.header.verifying_key), o.header.extensions.log, o.header.seq_num))
+                                    .collect()
+                            })
+                            .collect(),
+                    )
+                } else {
+                    None
+                };
                 (v, n, run.steps, run.wire.iter().map(|w| w.iter().map(sym).collect::<Vec<_>>()).collect::<Vec<_>>(), recv)
             },
             |ch, (v, n, steps, syms, recv)| {
                 acc.steps += steps;
-                if n[0] > 0 && n[1] > 0 {
+                if let Some(recv) = recv {
                     flowed = true;
                     if sample.is_none() {
                         sample = Some(json!({"part": part.name, "config": describe(cfg), "A_received": recv[0], "B_received": recv[1]}));
@@ -263,6 +295,7 @@ fn run_part(rep: &mut Report, chains: &Chains, part: &Part, wall: Instant) {
     });
     rep.transitions += acc.steps;
     acc.into_report(rep, part.name, part.max_dev);
+    configs.len()
 }
 
 pub fn run(mut rep: Report) -> i32 {
@@ -271,7 +304,7 @@ pub fn run(mut rep: Report) -> i32 {
     let chains = Chains::new(2, 2, 3, &pp_all);
     let plain = |a, l| slot_options(a, l, 2, &[None], None);
     let full = |a, l| slot_options(a, l, 2, &pp_all, None);
-    // Representative states of the second author (one log): absent, equal, A ahead, B ahead, only A.
+    // Representative states of a further slot: absent, equal, A ahead, B ahead, only A.
     let reps_a1: Vec<SlotCfg> = {
         use SlotSide::*;
         [
@@ -286,50 +319,69 @@ pub fn run(mut rep: Report) -> i32 {
         .collect()
     };
     let reps_a0l1: Vec<SlotCfg> = reps_a1.iter().map(|s| SlotCfg { a: 0, l: 1, ..s.clone() }).collect();
-    let mut parts: Vec<Part> = vec![];
-    if !thorough {
-        parts.push(Part {
-            name: "heights: author0 log0,log1 over {unlisted,empty,0,1,2}^2 x 5 author1 states, deviations<=1",
-            configs: product(&[plain(0, 0), plain(0, 1), reps_a1.clone()]),
-            max_dev: 1,
-        });
-        parts.push(Part {
-            name: "pruned: author0 log0 with prune point {1,2} and pruned prefixes x 5 author0-log1 states x 5 author1 states, deviations<=1",
-            configs: product(&[slot_options(0, 0, 2, &[Some(1), Some(2)], None), reps_a0l1, reps_a1.clone()]),
-            max_dev: 1,
-        });
+    let parts: Vec<Part> = if !thorough {
+        vec![
+            Part {
+                name: "heights: author0 log0,log1 over {unlisted,empty,0,1,2}^2 x 5 author1 states, deviations<=1",
+                options: vec![plain(0, 0), plain(0, 1), reps_a1.clone()],
+                max_dev: 1,
+                weight: 0.5,
+            },
+            Part {
+                name: "pruned: author0 log0 with prune point {1,2} and pruned prefixes x 5 author0-log1 states x 5 author1 states, deviations<=1",
+                options: vec![slot_options(0, 0, 2, &[Some(1), Some(2)], None), reps_a0l1, reps_a1.clone()],
+                max_dev: 1,
+                weight: 0.5,
+            },
+        ]
     } else {
-        parts.push(Part {
-            name: "heights: 2 authors x 2 logs over {unlisted,empty,0,1,2}^2, deviations<=1",
-            configs: product(&[plain(0, 0), plain(0, 1), plain(1, 0), plain(1, 1)]),
-            max_dev: 1,
-        });
-        parts.push(Part {
-            name: "pruned: author0 log0,log1 with prune point {none,1,2} and pruned prefixes x author1 log0 heights, deviations<=1",
-            configs: product(&[full(0, 0), full(0, 1), plain(1, 0)]),
-            max_dev: 1,
-        });
-        parts.push(Part {
-            name: "deviations<=2: author0 log0 full x author0 log1 heights x 5 author1 states",
-            configs: product(&[full(0, 0), plain(0, 1), reps_a1.clone()]),
-            max_dev: 2,
-        });
-        parts.push(Part {
-            name: "stored-but-unlisted: author0 log0 incl. 'stored seq 0..=1 but not in Logs' x author0 log1 heights x 5 author1 states, deviations<=1",
-            configs: product(&[slot_options(0, 0, 2, &[None, Some(2)], Some(1)), plain(0, 1), reps_a1]),
-            max_dev: 1,
-        });
-    }
+        vec![
+            Part {
+                name: "deviations<=2: author0 log0 with prune points {none,1,2} and pruned prefixes x author0 log1 heights x 5 author1 states",
+                options: vec![full(0, 0), plain(0, 1), reps_a1.clone()],
+                max_dev: 2,
+                weight: 0.15,
+            },
+            Part {
+                name: "deviations<=2: author0 log0,log1 and author1 log0 over {unlisted,empty,0,1,2}^2",
+                options: vec![plain(0, 0), plain(0, 1), plain(1, 0)],
+                max_dev: 2,
+                weight: 0.2,
+            },
+            Part {
+                name: "stored-but-unlisted: author0 log0 incl. 'stored seq 0..=1 but not in Logs' x author0 log1 heights x 5 author1 states, deviations<=1",
+                options: vec![slot_options(0, 0, 2, &[None, Some(2)], Some(1)), plain(0, 1), reps_a1],
+                max_dev: 1,
+                weight: 0.05,
+            },
+            Part {
+                name: "pruned: author0 log0,log1 with prune points {none,1,2} and pruned prefixes x author1 log0 heights, deviations<=1",
+                options: vec![full(0, 0), full(0, 1), plain(1, 0)],
+                max_dev: 1,
+                weight: 0.3,
+            },
+            Part {
+                name: "heights: 2 authors x 2 logs over {unlisted,empty,0,1,2}^2, deviations<=1",
+                options: vec![plain(0, 0), plain(0, 1), plain(1, 0), plain(1, 1)],
+                max_dev: 1,
+                weight: 0.3,
+            },
+        ]
+    };
     rep.rule = "replica pair = per (author, log) slot a signed chain seq 0..=2 (optionally with a prune-flagged operation) and per side {log not in Logs map, listed without entries, height 0/1/2, pruned prefix}; authors without listed log appear absent or with an empty log list; every scheduler and select!-start-branch choice vector within the deviation bound; non-trivial = pair for which operations were transferred in both directions".into();
-    let total: usize = parts.iter().map(|p| p.configs.len()).sum();
-    rep.set("configurations", json!(total));
-    let wall = Instant::now() + Duration::from_secs(if thorough { 560 } else { 40 });
+    let start = Instant::now();
+    let budget = if thorough { 560.0 } else { 40.0 };
+    let mut total = 0usize;
+    let mut cum = 0.0;
     for p in &parts {
-        run_part(&mut rep, &chains, p, wall);
+        cum += p.weight;
+        let deadline = start + Duration::from_secs_f64(budget * cum.min(1.0));
+        total += run_part(&mut rep, &chains, p, deadline);
     }
+    rep.set("configurations", json!(total));
     rep.assume("'shared logs' is read as the logs of the session: a side offers the logs of its own Logs map; a receiver's 'own height' is its store height for logs in its own Logs map and 'none' otherwise");
     rep.assume("MemStore (refmodel) stands in for SqliteStore; on SqliteStore an author with an empty log list makes get_log_heights panic (property C08), which MemStore does not model");
-    rep.assume("chains have length 3 and at most one prune point; the full product 2 authors x 2 logs x all pruned variants (1.5e8 pairs) is covered by the parts listed, not as one product");
+    rep.assume("chains have length 3 and at most one prune point; the full product 2 authors x 2 logs x all pruned variants (1.5e8 pairs) is covered by the sub-products listed in parts, not as one product");
     rep.assume("received operations are ingested with the operation's own prune flag; pruning itself (log_prune processor) is not applied, it does not change heights");
     rep.finish()
 }
